@@ -229,17 +229,45 @@ theorem msf_noicase {rer : ES.RER} (hic : rer.ignoreCase = false) (A : ES.CharSe
     ES.maybeSimpleCaseFolding rer A = A := by
   simp [ES.maybeSimpleCaseFolding, hic]
 
+/-- `absorb_single_characters` does nothing when no string has length one. -/
+theorem absorb_id {s : ClassSet} (h : ∀ a ∈ s.alts, a.length ≠ 1) : s.absorbSingleCharacters = s := by
+  have h1 : s.alts.filterMap single? = [] := by
+    apply List.filterMap_eq_nil_iff.2
+    intro a ha
+    match a, h a ha with
+    | [], _ => rfl
+    | [_], hh => exact absurd rfl hh
+    | _ :: _ :: _, _ => rfl
+  have h2 : s.alts.filter (fun x => x.length != 1) = s.alts := by
+    apply List.filter_eq_self.2
+    intro a ha
+    simpa using h a ha
+  cases s
+  simp only [ClassSet.absorbSingleCharacters] at h1 h2 ⊢
+  simp only [h1, h2, List.foldl_nil]
+
+theorem absorb_nil {s : ClassSet} (h : s.alts = []) : s.absorbSingleCharacters = s :=
+  absorb_id (by rw [h]; intro a ha; cases ha)
+
+/-- `ClassSet::node` when no string has length one. -/
+theorem node_eq (s : ClassSet) (ic neg : Bool) (h : ∀ a ∈ s.alts, a.length ≠ 1) :
+    s.node ic neg =
+      if s.alts.any (fun a => a.isEmpty) then
+        makeAlt [({ s with alts := s.alts.filter (fun a => !a.isEmpty) } : ClassSet).nonemptyNode ic neg, .empty]
+      else ({ s with alts := s.alts.filter (fun a => !a.isEmpty) } : ClassSet).nonemptyNode ic neg := by
+  simp only [ClassSet.node, absorb_id h]
+
 theorem vden_complement {rer : ES.RER} (hic : rer.ignoreCase = false) {A : ES.CharSet} {s : ClassSet}
     (hs : VDen A s) : VDen (ES.characterComplement rer A) { s with cps := inverted s.cps } :=
   ⟨(den_inverted hs.den).congr (fun x _ => by simp [ES.characterComplement, ES.allCharacters, hic]),
     rfl, hs.alts⟩
 
-theorem lowerVUnion_cons {fl : IR.Flags} {neg : Bool} {o : ES.VOp} {os : List ES.VOp} {acc : ClassSet}
+theorem lowerVUnion_cons {fl : IR.Flags} {o : ES.VOp} {os : List ES.VOp} {acc : ClassSet}
     (hne : ∀ lo hi, o ≠ .r lo hi) :
-    lowerVUnion fl neg (o :: os) acc =
-      match lowerVOperand fl neg o with
+    lowerVUnion fl (o :: os) acc =
+      match lowerVOperand fl o with
       | .error e => .error e
-      | .ok x => lowerVUnion fl neg os (acc.unionOperand x) := by
+      | .ok x => lowerVUnion fl os (acc.unionOperand x) := by
   cases o with
   | r lo hi => exact absurd rfl (hne lo hi)
   | c _ => rfl
@@ -273,18 +301,18 @@ theorem opDen_nested {negateSet : Bool} {A : ES.CharSet} {result : ClassSet} (h 
   | true => simpa [OpDen, hfi] using vden_complement hic h
 
 mutual
-theorem den_vOperand : ∀ (o : ES.VOp) (neg : Bool) (op : Operand), vopOK fl.unicodeSets o = true →
-    lowerVOperand fl neg o = .ok op → OpDen (ES.vOpCharSet rer o) op
-  | .c cp, neg, op, hok, hl => by
+theorem den_vOperand : ∀ (o : ES.VOp) (op : Operand), vopOK fl.unicodeSets o = true →
+    lowerVOperand fl o = .ok op → OpDen (ES.vOpCharSet rer o) op
+  | .c cp, op, hok, hl => by
     simp only [lowerVOperand, Except.ok.injEq] at hl; subst hl
     simp only [vopOK, decide_eq_true_eq] at hok
     exact ⟨hok, fun x => by simp [ES.vOpCharSet, msf_noicase hic, ES.CharSet.single],
       by simp [ES.vOpCharSet, msf_noicase hic, ES.CharSet.single]⟩
-  | .r _ _, neg, op, hok, hl => by simp [lowerVOperand] at hl
-  | .esc e, neg, op, hok, hl => by
+  | .r _ _, op, hok, hl => by simp [lowerVOperand] at hl
+  | .esc e, op, hok, hl => by
     simp only [lowerVOperand, hfi, Except.ok.injEq] at hl; subst hl
     exact ⟨by simpa [ES.vOpCharSet] using den_classEscape hic e, by simp [ES.vOpCharSet, classEscape_strs hic]⟩
-  | .prop pneg kind name, neg, op, hok, hl => by
+  | .prop pneg kind name, op, hok, hl => by
     simp only [lowerVOperand] at hl
     simp only [vopOK, propIsCharClass] at hok
     cases hp : lowerProp fl.unicodeSets kind name with
@@ -302,80 +330,91 @@ theorem den_vOperand : ∀ (o : ES.VOp) (neg : Bool) (op : Operand), vopOK fl.un
         | true =>
           simp only [if_true, hfi, Bool.false_eq_true, if_false, Except.ok.injEq] at hl; subst hl
           exact ⟨by simpa [ES.vOpCharSet] using hneg, by simp [ES.vOpCharSet, hstrs]⟩
-  | .q _, neg, op, hok, hl => by simp [vopOK] at hok
-  | .cls negateSet vop ops, neg, op, hok, hl => by
+  | .q _, op, hok, hl => by simp [vopOK] at hok
+  | .cls negateSet vop ops, op, hok, hl => by
     simp only [vopOK] at hok
     simp only [lowerVOperand] at hl
     cases vop with
     | union =>
       simp only at hl
-      cases hr : lowerVUnion fl (negateSet || neg) ops {} with
+      cases hr : lowerVUnion fl ops {} with
       | error e => rw [hr] at hl; cases hl
       | ok result =>
         rw [hr] at hl
+        simp only at hl
+        split at hl
+        · cases hl
         simp only [Except.ok.injEq] at hl; subst hl
-        have h0 := den_vUnion ops (negateSet || neg) {} result ES.CharSet.empty vden_empty hok hr
+        have h0 := den_vUnion ops {} result ES.CharSet.empty vden_empty hok hr
         have h1 : VDen (ES.vUnion rer ops) result :=
           ⟨h0.den.congr (fun x _ => by simp [ES.CharSet.union, ES.CharSet.empty]),
             strs_of_union_nil rfl h0.strs, h0.alts⟩
-        simp only [ES.vOpCharSet]
+        simp only [ES.vOpCharSet, absorb_nil h1.alts]
         exact opDen_nested hic fl hfi h1
     | inter =>
       simp only at hl
-      cases hr : lowerVInterStart fl (negateSet || neg) ops with
+      cases hr : lowerVInterStart fl ops with
       | error e => rw [hr] at hl; cases hl
       | ok result =>
         rw [hr] at hl
+        simp only at hl
+        split at hl
+        · cases hl
         simp only [Except.ok.injEq] at hl; subst hl
-        simp only [ES.vOpCharSet]
-        exact opDen_nested hic fl hfi (den_vInterStart ops _ result hok hr)
+        have h1 := den_vInterStart ops result hok hr
+        simp only [ES.vOpCharSet, absorb_nil h1.alts]
+        exact opDen_nested hic fl hfi h1
     | sub =>
       simp only at hl
-      cases hr : lowerVSubStart fl (negateSet || neg) ops with
+      cases hr : lowerVSubStart fl ops with
       | error e => rw [hr] at hl; cases hl
       | ok result =>
         rw [hr] at hl
+        simp only at hl
+        split at hl
+        · cases hl
         simp only [Except.ok.injEq] at hl; subst hl
-        simp only [ES.vOpCharSet]
-        exact opDen_nested hic fl hfi (den_vSubStart ops _ result hok hr)
-theorem den_vInterStart : ∀ (ops : List ES.VOp) (neg : Bool) (result : ClassSet),
-    vopsOK fl.unicodeSets ops = true → lowerVInterStart fl neg ops = .ok result → VDen (ES.vInter rer ops) result
-  | [], neg, result, hok, hl => by simp [lowerVInterStart] at hl
-  | [_], neg, result, hok, hl => by simp [lowerVInterStart] at hl
-  | o :: o2 :: os, neg, result, hok, hl => by
+        have h1 := den_vSubStart ops result hok hr
+        simp only [ES.vOpCharSet, absorb_nil h1.alts]
+        exact opDen_nested hic fl hfi h1
+theorem den_vInterStart : ∀ (ops : List ES.VOp) (result : ClassSet),
+    vopsOK fl.unicodeSets ops = true → lowerVInterStart fl ops = .ok result → VDen (ES.vInter rer ops) result
+  | [], result, hok, hl => by simp [lowerVInterStart] at hl
+  | [_], result, hok, hl => by simp [lowerVInterStart] at hl
+  | o :: o2 :: os, result, hok, hl => by
     simp only [vopsOK, Bool.and_eq_true] at hok
     simp only [lowerVInterStart] at hl
-    cases hf : lowerVOperand fl neg o with
+    cases hf : lowerVOperand fl o with
     | error e => rw [hf] at hl; cases hl
     | ok first =>
       rw [hf] at hl
       simp only [hfi, closeClassSetOperand, Bool.not_false, if_true] at hl
-      have h1 := den_vOperand o _ first hok.1 hf
+      have h1 := den_vOperand o first hok.1 hf
       simp only [ES.vInter]
-      exact den_vInter (o2 :: os) _ _ result _ (vden_first h1) (by simp [vopsOK, hok.2]) hl
-theorem den_vSubStart : ∀ (ops : List ES.VOp) (neg : Bool) (result : ClassSet),
-    vopsOK fl.unicodeSets ops = true → lowerVSubStart fl neg ops = .ok result → VDen (ES.vSub rer ops) result
-  | [], neg, result, hok, hl => by simp [lowerVSubStart] at hl
-  | [_], neg, result, hok, hl => by simp [lowerVSubStart] at hl
-  | o :: o2 :: os, neg, result, hok, hl => by
+      exact den_vInter (o2 :: os) _ result _ (vden_first h1) (by simp [vopsOK, hok.2]) hl
+theorem den_vSubStart : ∀ (ops : List ES.VOp) (result : ClassSet),
+    vopsOK fl.unicodeSets ops = true → lowerVSubStart fl ops = .ok result → VDen (ES.vSub rer ops) result
+  | [], result, hok, hl => by simp [lowerVSubStart] at hl
+  | [_], result, hok, hl => by simp [lowerVSubStart] at hl
+  | o :: o2 :: os, result, hok, hl => by
     simp only [vopsOK, Bool.and_eq_true] at hok
     simp only [lowerVSubStart] at hl
-    cases hf : lowerVOperand fl neg o with
+    cases hf : lowerVOperand fl o with
     | error e => rw [hf] at hl; cases hl
     | ok first =>
       rw [hf] at hl
       simp only [hfi, closeClassSetOperand, Bool.not_false, if_true] at hl
-      have h1 := den_vOperand o _ first hok.1 hf
+      have h1 := den_vOperand o first hok.1 hf
       simp only [ES.vSub]
-      exact den_vSub (o2 :: os) _ _ result _ (vden_first h1) (by simp [vopsOK, hok.2]) hl
-theorem den_vUnion : ∀ (ops : List ES.VOp) (neg : Bool) (acc result : ClassSet) (A : ES.CharSet), VDen A acc →
-    vopsOK fl.unicodeSets ops = true → lowerVUnion fl neg ops acc = .ok result →
+      exact den_vSub (o2 :: os) _ result _ (vden_first h1) (by simp [vopsOK, hok.2]) hl
+theorem den_vUnion : ∀ (ops : List ES.VOp) (acc result : ClassSet) (A : ES.CharSet), VDen A acc →
+    vopsOK fl.unicodeSets ops = true → lowerVUnion fl ops acc = .ok result →
     VDen (A.union (ES.vUnion rer ops)) result
-  | [], neg, acc, result, A, ha, hok, hl => by
+  | [], acc, result, A, ha, hok, hl => by
     simp only [lowerVUnion, Except.ok.injEq] at hl; subst hl
     exact ⟨ha.den.congr (fun x _ => by simp [ES.CharSet.union, ES.vUnion, ES.CharSet.empty]),
       by simp [ES.CharSet.union, ES.vUnion, ES.CharSet.empty, ha.strs], ha.alts⟩
-  | o :: os, neg, acc, result, A, ha, hok, hl => by
+  | o :: os, acc, result, A, ha, hok, hl => by
     simp only [vopsOK, Bool.and_eq_true] at hok
     by_cases hr : ∃ lo hi, o = .r lo hi
     · obtain ⟨lo, hi, rfl⟩ := hr
@@ -386,18 +425,18 @@ theorem den_vUnion : ∀ (ops : List ES.VOp) (neg : Bool) (acc result : ClassSet
         ⟨(den_add ha.den hok.1.1 hok.1.2).congr (fun x _ => by
             simp [ES.CharSet.union, ES.vOpCharSet, msf_noicase hic, ES.CharSet.range]),
           by simp [ES.CharSet.union, ES.vOpCharSet, msf_noicase hic, ES.CharSet.range, ha.strs], ha.alts⟩
-      have := den_vUnion os neg _ result _ hstep hok.2 hl
+      have := den_vUnion os _ result _ hstep hok.2 hl
       simp only [ES.vUnion]
       exact vden_assoc this ha.strs (by simp [ES.vOpCharSet, msf_noicase hic, ES.CharSet.range])
     · have hne : ∀ lo hi, o ≠ .r lo hi := fun lo hi h => hr ⟨lo, hi, h⟩
       rw [lowerVUnion_cons hne] at hl
-      cases hf : lowerVOperand fl neg o with
+      cases hf : lowerVOperand fl o with
       | error e => rw [hf] at hl; cases hl
       | ok x =>
         rw [hf] at hl
-        have h1 := den_vOperand o neg x hok.1 hf
+        have h1 := den_vOperand o x hok.1 hf
         have hstep := vden_unionOperand ha h1
-        have := den_vUnion os neg _ result _ hstep hok.2 hl
+        have := den_vUnion os _ result _ hstep hok.2 hl
         simp only [ES.vUnion]
         have hb : (ES.vOpCharSet rer o).strs = [] := by
           cases x with
@@ -406,38 +445,38 @@ theorem den_vUnion : ∀ (ops : List ES.VOp) (neg : Bool) (acc result : ClassSet
           | cls _ => exact h1.strs
           | strs _ => exact h1.elim
         exact vden_assoc this ha.strs hb
-theorem den_vInter : ∀ (ops : List ES.VOp) (neg : Bool) (acc result : ClassSet) (A : ES.CharSet), VDen A acc →
-    vopsOK fl.unicodeSets ops = true → lowerVInter fl neg ops acc = .ok result → VDen (ES.vInterFrom rer A ops) result
-  | [], neg, acc, result, A, ha, hok, hl => by
+theorem den_vInter : ∀ (ops : List ES.VOp) (acc result : ClassSet) (A : ES.CharSet), VDen A acc →
+    vopsOK fl.unicodeSets ops = true → lowerVInter fl ops acc = .ok result → VDen (ES.vInterFrom rer A ops) result
+  | [], acc, result, A, ha, hok, hl => by
     simp only [lowerVInter, Except.ok.injEq] at hl; subst hl
     simpa [ES.vInterFrom] using ha
-  | o :: os, neg, acc, result, A, ha, hok, hl => by
+  | o :: os, acc, result, A, ha, hok, hl => by
     simp only [vopsOK, Bool.and_eq_true] at hok
     simp only [lowerVInter] at hl
-    cases hf : lowerVOperand fl neg o with
+    cases hf : lowerVOperand fl o with
     | error e => rw [hf] at hl; cases hl
     | ok x =>
       rw [hf] at hl
       simp only [hfi, closeClassSetOperand, Bool.not_false, if_true] at hl
-      have h1 := den_vOperand o neg x hok.1 hf
+      have h1 := den_vOperand o x hok.1 hf
       simp only [ES.vInterFrom]
-      exact den_vInter os neg _ result _ (vden_intersectOperand ha h1) hok.2 hl
-theorem den_vSub : ∀ (ops : List ES.VOp) (neg : Bool) (acc result : ClassSet) (A : ES.CharSet), VDen A acc →
-    vopsOK fl.unicodeSets ops = true → lowerVSub fl neg ops acc = .ok result → VDen (ES.vSubFrom rer A ops) result
-  | [], neg, acc, result, A, ha, hok, hl => by
+      exact den_vInter os _ result _ (vden_intersectOperand ha h1) hok.2 hl
+theorem den_vSub : ∀ (ops : List ES.VOp) (acc result : ClassSet) (A : ES.CharSet), VDen A acc →
+    vopsOK fl.unicodeSets ops = true → lowerVSub fl ops acc = .ok result → VDen (ES.vSubFrom rer A ops) result
+  | [], acc, result, A, ha, hok, hl => by
     simp only [lowerVSub, Except.ok.injEq] at hl; subst hl
     simpa [ES.vSubFrom] using ha
-  | o :: os, neg, acc, result, A, ha, hok, hl => by
+  | o :: os, acc, result, A, ha, hok, hl => by
     simp only [vopsOK, Bool.and_eq_true] at hok
     simp only [lowerVSub] at hl
-    cases hf : lowerVOperand fl neg o with
+    cases hf : lowerVOperand fl o with
     | error e => rw [hf] at hl; cases hl
     | ok x =>
       rw [hf] at hl
       simp only [hfi, closeClassSetOperand, Bool.not_false, if_true] at hl
-      have h1 := den_vOperand o neg x hok.1 hf
+      have h1 := den_vOperand o x hok.1 hf
       simp only [ES.vSubFrom]
-      exact den_vSub os neg _ result _ (vden_subtractOperand ha h1) hok.2 hl
+      exact den_vSub os _ result _ (vden_subtractOperand ha h1) hok.2 hl
 end
 
 end
@@ -461,7 +500,7 @@ theorem inRange_mkBracket (lo hi : Nat) (inv : Bool) (s : IvList) : InRange lo h
   simp [mkBracket, InRange]
 
 theorem node_noalts (s : ClassSet) (neg : Bool) (h : s.alts = []) : s.node false neg = mkBracket neg s.cps := by
-  simp [ClassSet.node, ClassSet.nonemptyNode, h]
+  simp [ClassSet.node, absorb_nil h, ClassSet.nonemptyNode, h]
 
 theorem lower_class_node {inp : Input} {cs : List Nat} (ht : Utf8Text inp cs) (pattern : ES.Node) (total : Nat) :
     ∀ (n : ES.Node) (fl : IR.Flags) (rer : ES.RER) (pi : Nat) (back : Bool) (ir : Node),
@@ -567,30 +606,39 @@ theorem lower_class_node {inp : Input} {cs : List Nat} (ht : Utf8Text inp cs) (p
       cases op with
       | union =>
         simp only at hl
-        cases hr : lowerVUnion fl neg ops {} with
+        cases hr : lowerVUnion fl ops {} with
         | error e => rw [hr] at hl; cases hl
         | ok r =>
           rw [hr] at hl
+          simp only at hl
+          split at hl
+          · cases hl
           simp only [Except.ok.injEq] at hl
-          have h0 := den_vUnion hic fl hs.1 ops neg {} r ES.CharSet.empty vden_empty hs.2 hr
+          have h0 := den_vUnion hic fl hs.1 ops {} r ES.CharSet.empty vden_empty hs.2 hr
           exact fin r ⟨h0.den.congr (fun x _ => by simp [ES.vExprCharSet, ES.CharSet.union, ES.CharSet.empty]),
             strs_of_union_nil rfl h0.strs, h0.alts⟩ hl.symm
       | inter =>
         simp only at hl
-        cases hr : lowerVInterStart fl neg ops with
+        cases hr : lowerVInterStart fl ops with
         | error e => rw [hr] at hl; cases hl
         | ok r =>
           rw [hr] at hl
+          simp only at hl
+          split at hl
+          · cases hl
           simp only [Except.ok.injEq] at hl
-          exact fin r (den_vInterStart hic fl hs.1 ops neg r hs.2 hr) hl.symm
+          exact fin r (den_vInterStart hic fl hs.1 ops r hs.2 hr) hl.symm
       | sub =>
         simp only at hl
-        cases hr : lowerVSubStart fl neg ops with
+        cases hr : lowerVSubStart fl ops with
         | error e => rw [hr] at hl; cases hl
         | ok r =>
           rw [hr] at hl
+          simp only at hl
+          split at hl
+          · cases hl
           simp only [Except.ok.injEq] at hl
-          exact fin r (den_vSubStart hic fl hs.1 ops neg r hs.2 hr) hl.symm
+          exact fin r (den_vSubStart hic fl hs.1 ops r hs.2 hr) hl.symm
   | _ => simp [classSupported] at hs
 
 end Regress.Lower
